@@ -45,6 +45,9 @@ type Ctx struct {
 	PathPrefix  string // e.g. "vf/gv2s"   -> file name vf/gv2s/<file>.proto
 	Proto3Opt   bool   // the message generator of this variant supports proto3 optional
 	GogoWKT     bool   // well-known types come from github.com/gogo/protobuf/types
+	// SpecialFields: proto field names whose Go name the message generator of this variant suffixes with '_'
+	// because it collides with a method (the plug-in is told through its specialname option)
+	SpecialFields []string
 }
 
 // File starts a file.
